@@ -258,6 +258,31 @@ func TestWitnessGate(t *testing.T) {
 // TestWitnessSubscription: Add / Unsubscribe / Wait / IsClosed, every subset of panicking teardowns, late Add.
 func TestWitnessSubscription(t *testing.T) {
 	fails := 0
+	// a teardown added after disposal may use its own subscription (it runs outside the subscription's lock)
+	for _, use := range []string{"IsClosed", "Add", "Unsubscribe"} {
+		sub := NewSubscription(nil)
+		sub.Unsubscribe()
+		done := make(chan struct{})
+		go func() {
+			sub.Add(func() {
+				switch use {
+				case "IsClosed":
+					sub.IsClosed()
+				case "Add":
+					sub.Add(func() {})
+				case "Unsubscribe":
+					sub.Unsubscribe()
+				}
+				close(done)
+			})
+		}()
+		select {
+		case <-done:
+		case <-time.After(time.Second):
+			fails++
+			fmt.Printf("REPLAY-FAIL subscription: Unsubscribe(); Add(teardown calling %s on the same subscription): the late teardown never returns (it runs under the subscription's lock)\n", use)
+		}
+	}
 	for n := 0; n <= 4; n++ {
 		for mask := 0; mask < 1<<n; mask++ {
 			sub := NewSubscription(nil)
